@@ -92,11 +92,34 @@ Theorem C09_to_first_order_nodes : forall (V : Type) c (m m' : mesh V),
      (forall n, In n (ids (nodes m')) -> lookup n (nodes m') = lookup n (nodes m))).
 Proof. intros V. exact (@to_first_order_nodes V). Qed.
 
-Theorem C09_to_surface_nodes_partial : forall (V : Type) c (m m' : mesh V) surf remove,
+(* any flag value of remove_unnecessary_nodes *)
+Theorem C09_to_surface_nodes : forall (V : Type) c (m m' : mesh V) surf remove,
   wf_mesh m = true -> to_surface c m surf remove = Some m' ->
   incl (nodes m') (nodes m) /\
   (NoDup (ids (nodes m')) -> forall n, In n (ids (nodes m')) -> lookup n (nodes m') = lookup n (nodes m)).
 Proof. intros V. exact (@to_surface_nodes V). Qed.
+
+(* to_surface with node removal: self-contained, facets numbered 1..k,
+   retained nodes keep their coordinates *)
+Theorem C09_to_surface_self_contained : forall (V : Type) c (m m' : mesh V) surf,
+  wf_mesh m = true -> to_surface c m surf true = Some m' ->
+  self_contained m' /\
+  eids (elems m') = map Z.of_nat (seq 1 (length (flat_map snd surf))) /\
+  (forall n, In n (ids (nodes m')) -> lookup n (nodes m') = lookup n (nodes m)).
+Proof. intros V. exact (@to_surface_self_contained V). Qed.
+
+Theorem C09_to_facets_ids : forall (V : Type) (m : mesh V) facets,
+  eids (elems (to_facets m facets)) = map Z.of_nat (seq 1 (length (flat_map snd facets))).
+Proof. intros V. exact (@to_facets_ids V). Qed.
+
+(* nodal variables (those defined on every node) when carried by id *)
+Theorem C09_to_first_order_nodal_by_id : forall (V : Type) c (m m' : mesh V),
+  first_order_by_id c = true -> to_first_order c m = Some m' -> m' = m \/ vars_kept (full_vars m) m'.
+Proof. intros V. exact (@to_first_order_nodal_by_id V). Qed.
+
+Theorem C09_to_surface_nodal_by_id : forall (V : Type) c (m m' : mesh V) surf,
+  surface_by_id c = true -> to_surface c m surf true = Some m' -> vars_kept (full_vars m) m'.
+Proof. intros V. exact (@to_surface_nodal_by_id V). Qed.
 
 Theorem C09_to_facets_nodes : forall (V : Type) (m : mesh V) facets,
   nodes (to_facets m facets) = nodes m /\ nodal (to_facets m facets) = nodal m.
@@ -120,26 +143,36 @@ Theorem C09_to_surface_refuted : forall c, surface_by_id c = false ->
              exists var', nodal m' = [(0%nat, var')] /\ lookup 3%Z var' = Some 2%Z.
 Proof. exact to_surface_refuted. Qed.
 
-(* the tree under test: which of the three is carried by id *)
+(* the tree under test: for each of the three operations either nodal
+   variables provably stay attached (carried by id) or the model exhibits the
+   mesh on which they do not *)
 Theorem C09_tree_decided :
   (if useless_by_id cfg
    then forall (V : Type) (m m' : mesh V), wf_mesh m = true -> remove_useless_nodes cfg m = Some m' ->
                                            m' = m \/ nodal_kept m m'
    else exists m', remove_useless_nodes cfg m_ref = Some m' /\
                    exists var', nodal m' = [(0%nat, var')] /\ lookup 1%Z var' = Some 9%Z)
-  /\ (first_order_by_id cfg = false ->
-      exists m', to_first_order cfg m_ref2 = Some m' /\ ids (nodes m') = [3; 1; 2; 4]%Z /\
-                 exists var', nodal m' = [(0%nat, var')] /\ ids var' = [16; 15; 13; 12]%Z)
-  /\ (surface_by_id cfg = false ->
-      exists m', to_surface cfg m_ref [(3%nat, [[1; 3; 0]%nat])] true = Some m' /\
-                 exists var', nodal m' = [(0%nat, var')] /\ lookup 3%Z var' = Some 2%Z).
+  /\ (if first_order_by_id cfg
+      then forall (V : Type) (m m' : mesh V), to_first_order cfg m = Some m' ->
+                                              m' = m \/ vars_kept (full_vars m) m'
+      else exists m', to_first_order cfg m_ref2 = Some m' /\ ids (nodes m') = [3; 1; 2; 4]%Z /\
+                      exists var', nodal m' = [(0%nat, var')] /\ ids var' = [16; 15; 13; 12]%Z)
+  /\ (if surface_by_id cfg
+      then forall (V : Type) (m m' : mesh V) surf, to_surface cfg m surf true = Some m' ->
+                                                   vars_kept (full_vars m) m'
+      else exists m', to_surface cfg m_ref [(3%nat, [[1; 3; 0]%nat])] true = Some m' /\
+                      exists var', nodal m' = [(0%nat, var')] /\ lookup 3%Z var' = Some 2%Z).
 Proof.
   split; [|split].
   - destruct (useless_by_id cfg) eqn:E.
     + intros V m m' W H. eapply remove_useless_nodes_nodal_by_id; eauto.
     + destruct (remove_useless_nodes_refuted cfg E) as [_ [m' [H [_ R]]]]. eauto.
-  - intros E. destruct (to_first_order_refuted cfg E) as [_ R]. exact R.
-  - intros E. destruct (to_surface_refuted cfg E) as [m' [H [_ R]]]. eauto.
+  - destruct (first_order_by_id cfg) eqn:E.
+    + intros V m m' H. eapply to_first_order_nodal_by_id; eauto.
+    + destruct (to_first_order_refuted cfg E) as [_ R]. exact R.
+  - destruct (surface_by_id cfg) eqn:E.
+    + intros V m m' surf H. eapply to_surface_nodal_by_id; eauto.
+    + destruct (to_surface_refuted cfg E) as [m' [H [_ R]]]. eauto.
 Qed.
 
 (* non-vacuity: the reference meshes are well formed, mixed, with unsorted
